@@ -282,6 +282,34 @@ def _ancestors(prog: Program, name: str, seen: Optional[Set[str]] = None) -> Set
     return seen
 
 
+def uncertainty_conversions(rep: Report, prog: Program) -> None:
+    """R12.8: an uncertainty is a half-width, a *difference* of two points on the scale.  Converting it with
+    in_unit treats it as a point: on scales with a zero-point offset (degC, degF) the offset is added to
+    it, and since a comparison converts the right operand into the left one's unit, x == y and y == x
+    then test different intervals.  Bounds measurand -/+ uncertainty are points and may be converted."""
+    n = 0
+    for q, fi in sorted(prog.functions.items()):
+        if fi.module != "" or not (fi.cls == "Measurement" or fi.name == "approximately"):
+            continue
+        defs = {x.targets[0].id: x.value for x in ast.walk(fi.node) if isinstance(x, ast.Assign) and len(x.targets) == 1 and isinstance(x.targets[0], ast.Name)}
+
+        def is_uncertainty(e: ast.AST, depth: int = 0) -> bool:
+            if isinstance(e, ast.Attribute) and e.attr == "uncertainty":
+                return True
+            if isinstance(e, ast.Name) and e.id in defs and depth < 3:
+                return is_uncertainty(defs[e.id], depth + 1)
+            return False
+        for c in ast.walk(fi.node):
+            if isinstance(c, ast.Call) and isinstance(c.func, ast.Attribute) and c.func.attr == "in_unit":
+                n += 1
+                rep.check("R12.8", f"{q}:{ast.unparse(c)[:50]}", not is_uncertainty(c.func.value),
+                          f"`{ast.unparse(c)[:60]}` converts an uncertainty (a half-width) as if it were a point on the scale: across scales "
+                          "with a zero-point offset the offset is added to it, so (20+-0.5 degC) == (293.15+-0.5 K) and the reverse disagree",
+                          fi.where(c))
+    if n == 0:
+        rep.ok("R12.8", "Measurement", note="no in_unit call in Measurement (conversion happens inside Quantity arithmetic on the bounds)")
+
+
 def override_discipline(rep: Report, prog: Program) -> None:
     """R12.7: the symmetry arguments R12.1/R12.2 are about Quantity, Level and Measurement.  A
     subclass that overrides a comparison re-opens them: when its other operand may be of its own
@@ -345,6 +373,7 @@ def override_discipline(rep: Report, prog: Program) -> None:
 def run(rep: Report) -> None:
     prog = Program()
     resolver = Resolver(prog)
+    rep.rule("R12.8", "an uncertainty (half-width) is never converted with in_unit as if it were a point on the scale", floor=1)
     rep.rule("R12.7", "a subclass overriding a comparison treats both operands alike when the other may be of its own kind", floor=1)
     rep.rule("R12.1", "the overlap predicate of Measurement.__eq__, as a function of the four interval bounds, is invariant "
              "under swapping the operands on every weak ordering with lower <= upper (exhaustive)", floor=20)
@@ -357,10 +386,21 @@ def run(rep: Report) -> None:
     rep.rule("R12.6", "every ordering method compares with the operator it denotes (no < inside __ge__)", floor=5)
     rep.rule("R06.2", "== and < compare the operands' physical values in one unit (shared with C06)", floor=4)
 
+    # R12.8 (runs first: it names the construct that also defeats the extractor below)
+    uncertainty_conversions(rep, prog)
     # R12.1
     meq = prog.func("Measurement.__eq__")
     mcls = prog.cls("Measurement")
-    pred, atoms, text = interval_predicate(meq.node, {n: prog.functions[q].node for n, q in mcls.methods.items()})
+    deferred: Optional[AnalysisError] = None
+    try:
+        pred, atoms, text = interval_predicate(meq.node, {n: prog.functions[q].node for n, q in mcls.methods.items()})
+    except AnalysisError as e:
+        # the predicate is not in a form the order-domain evaluation can read: the other rules still run, and the
+        # run ends as an analysis error only if none of them reports a violation
+        deferred = e
+        rep.defer(e)
+        pred, atoms, text = (lambda o: True), ["self.lower", "self.upper", "other.lower", "other.upper"], f"<not extracted: {e}>"
+        rep.rules["R12.1"].floor = 0
     orders = [o for o in weak_orders(atoms) if o["self.lower"] <= o["self.upper"] and o["other.lower"] <= o["other.upper"]]
     bad = []
     for o in orders:
